@@ -37,7 +37,9 @@ from pandera.dtypes import (
     is_complex,
     is_datetime,
     is_float,
+    is_int,
     is_timedelta,
+    is_uint,
 )
 from pandera.engines import numpy_engine, pandas_engine
 from pandera.errors import BaseStrategyOnlyError, SchemaDefinitionError
@@ -594,13 +596,17 @@ def in_range_strategy(
     :returns: ``hypothesis`` strategy
     """
     if strategy is None:
-        return pandas_dtype_strategy(
+        strategy = pandas_dtype_strategy(
             pandera_dtype,
             min_value=min_value,
             max_value=max_value,
             exclude_min=not include_min,
             exclude_max=not include_max,
         )
+        if not (is_int(pandera_dtype) or is_uint(pandera_dtype)):
+            return strategy
+        # integer dtypes ignore exclude_min / exclude_max: enforce the bounds
+        # with the filters below
     min_op = operator.le if include_min else operator.lt
     max_op = operator.ge if include_max else operator.gt
     return strategy.filter(partial(min_op, min_value)).filter(
